@@ -40,7 +40,7 @@ def attrs_of_frame(frame):
 
 def plan(tier, seed):
     n = 16
-    return [dict(part=i, nparts=n, seed=seed * 100 + i, n=1500 if tier == 'quick' else 40000) for i in range(n)]
+    return [dict(part=i, nparts=n, seed=seed * 100 + i, n=6000 if tier == 'quick' else 40000) for i in range(n)]
 
 
 def world(as4peer):
